@@ -1,6 +1,6 @@
 (* Entry point for the extracted executable (C05 and C08): decodes cases, runs the model. *)
 From Coq Require Import List NArith Bool.
-From CV Require Import Base.Bytes Names.Defs.
+From CV Require Import Base.Bytes Names.Defs Names.LexDefs.
 Import ListNotations.
 Local Open Scope N_scope.
 
@@ -27,8 +27,23 @@ Fixpoint ops_of (l : list str) : option (list op) :=
               end
   end.
 
+(* lexer cases: one field = the source bytes; result: str line col comment(0/1) per token; "U" = outside the
+   modelled fragment; a cleared token list prints as no field at all *)
+Definition enc_tok (t : tokp) : list str :=
+  [tstr t; dec_of_N (tline t); dec_of_N (tcol t); str_of_bool (tcomment t)].
+
+Definition run_lex (phase1 : bool) (s : str) : list str :=
+  let l := if phase1 then (let l1 := lex1 s in if existsb is_marker l1 then filter is_marker l1 else l1) else lex s in
+  if existsb (fun t => str_eqb (tstr t) [33; 85]) l then [[85]]
+  else if existsb is_marker l then []
+  else flat_map enc_tok l.
+
 Definition run (fields : list str) : list str :=
   match fields with
+  | [[108; 101; 120]; s] => run_lex false s          (* lex *)
+  | [[108; 101; 120]] => run_lex false []
+  | [[108; 101; 120; 49]; s] => run_lex true s       (* lex1 *)
+  | [[108; 101; 120; 49]] => run_lex true []
   | tag :: r =>
       match ops_of r with
       | None => [[33]]
